@@ -3,19 +3,6 @@
 From PegV Require Import Base.Tac Base.ListX Spec.Syntax Model.Calls Reader.Base Reader.Lex Reader.Chars Reader.Lits Reader.Expr.
 Local Open Scope Z_scope.
 
-(** * layout *)
-Fixpoint layb_c (incmt : bool) (s : list rune) : bool :=
-  match s with
-  | [] => negb incmt
-  | c :: r =>
-      if incmt then (if (c =? 10) || (c =? 13) then layb_c false r else layb_c true r)
-      else if (c =? 32) || (c =? 9) || (c =? 10) || (c =? 13) then layb_c false r
-      else if c =? 35 then layb_c true r
-      else if c =? 47 then match r with d :: r' => if d =? 47 then layb_c true r' else false | [] => false end
-      else false
-  end.
-Definition layb (s : list rune) : bool := layb_c false s.
-
 Lemma layb_sound_n n : forall s, (length s <= n)%nat ->
   (layb_c false s = true -> lay s) /\
   (layb_c true s = true -> exists body e s', s = body ++ e :: s' /\ nolb body /\ is_lb e /\ lay s').
@@ -40,14 +27,6 @@ Qed.
 Lemma layb_sound s : layb s = true -> lay s.
 Proof. intros H. exact (proj1 (layb_sound_n _ s (le_n _)) H). Qed.
 
-(** * balanced braces *)
-Fixpoint balb (d : nat) (s : list rune) : bool :=
-  match s with
-  | [] => Nat.eqb d 0
-  | c :: r => if c =? 123 then balb (S d) r
-              else if c =? 125 then match d with O => false | S d' => balb d' r end
-              else balb d r
-  end.
 Fixpoint bal_open (d : nat) (s : list rune) : Prop :=
   match d with
   | O => bal s
@@ -70,36 +49,6 @@ Proof.
 Qed.
 Lemma balb_sound s : balb 0 s = true -> bal s.
 Proof. apply (balb_open s 0). Qed.
-
-(** * expressions *)
-Definition head_icont (s : list rune) : bool := match s with c :: _ => is_icont c | [] => false end.
-Fixpoint adjb (l : list cx) : bool :=
-  match l with
-  | x :: ((y :: _) as l') => implb (glue x) (negb (head_icont (show y))) && adjb l'
-  | _ => true
-  end.
-Definition sufopb (op : rune) : bool := (op =? 63) || (op =? 42) || (op =? 43).
-Definition preopb (op : rune) : bool := (op =? 38) || (op =? 33).
-
-Fixpoint wfb (e : cx) : bool :=
-  match e with
-  | XDot s => layb s
-  | XName id s => ident_ok id && layb s
-  | XAct a s => balb 0 a && layb s
-  | XLit dbl ks s => chars_ok (quote_of dbl) ks [quote_of dbl] && layb s
-  | XClass dbl neg items s => class_wf dbl neg items && citems_ok items (cclose dbl) && (negb dbl || ranges_ascii items) && layb s
-  | XGroup s1 e s2 | XPush s1 e s2 => layb s1 && wfb e && layb s2
-  | XSuf op e s => sufopb op && Nat.eqb (lvl e) 0 && wfb e && layb s
-  | XPre op s e => preopb op && layb s && Nat.leb (lvl e) 1 && wfb e && negb (head_is 123 (show e))
-  | XPredA op s1 a s2 => preopb op && layb s1 && balb 0 a && layb s2
-  | XSeq l => Nat.leb 2 (length l) && forallb (fun x => Nat.leb (lvl x) 2 && wfb x) l && adjb l
-  | XAlt e1 l trail =>
-      Nat.leb (lvl e1) 3 && wfb e1 &&
-      forallb (fun sx : list rune * cx => layb (fst sx) && negb (head_is 47 (fst sx)) && Nat.leb (lvl (snd sx)) 3 && wfb (snd sx)) l &&
-      match trail with Some s => layb s && negb (head_is 47 s) | None => true end &&
-      (match l with [] => false | _ => true end || match trail with Some _ => true | None => false end)
-  | XEmpty => true
-  end.
 
 Lemma head_is_ne c s : head_is c s = false -> head_ne c s.
 Proof. intros H c' r ->. cbn [head_is] in H. lia. Qed.
